@@ -168,3 +168,30 @@ Qed.
 Example accepted_centre_instance :
   check_C01 (CI2P true [0; 0] [4; 3] [4; 2]%Z (1 # 1000000000000) [3; 0]%Z (Some [7 # 2; 3 # 4])) = true.
 Proof. vm_compute. reflexivity. Qed.
+
+(* transfer: the OBSERVED index of an accepted point2index observation is in range and its cell
+   contains the probe point (tolerance form, sharp half-open form inside the region, upper face to
+   the last cell) *)
+Theorem accepted_point_in_cell p1 p2 n_ tf_ p obs_in j :
+  check_C01 (CP2I true p1 p2 n_ tf_ p obs_in (Some j)) = true -> 0 <= tf_ -> (length p1 <= 10)%nat ->
+  exists m, build p1 p2 n_ tf_ = OK m /\ wf_mesh m /\ contains_pt (reg m) p = obs_in /\
+  length j = length (pmin (reg m)) /\
+  forall a, (a < length (pmin (reg m)))%nat ->
+    let lo := nth a (pmin (reg m)) 0 in let hi := nth a (pmax (reg m)) 0 in
+    let c := nth a (cell m) 0 in let x := nth a p 0 in let k := nth a j 0%Z in
+    let t := tau (tf (reg m)) (reg_atol (reg m)) x in
+    (0 <= k < nth a (n m) 1)%Z /\
+    lo + inject_Z k * c - t <= x /\ x <= lo + (inject_Z k + 1) * c + t /\
+    (lo <= x -> x < hi -> lo + inject_Z k * c <= x /\ x < lo + (inject_Z k + 1) * c) /\
+    (hi <= x -> k = (nth a (n m) 1 - 1)%Z).
+Proof.
+  intros H Htf Hnd. destruct (check_p2i_sound _ _ _ _ _ _ _ H) as (m & Hb & Hp & Hc).
+  pose proof (build_wf _ _ _ _ _ Hb Htf Hnd) as Hwf.
+  exists m. split; [exact Hb|]. split; [exact Hwf|]. split; [exact Hc|].
+  exact (cell_contains m Hwf p j Hp).
+Qed.
+
+(* transfer: an observed refusal of an index is the model's refusal *)
+Example accepted_point_instance :
+  check_C01 (CP2I true [0; 0] [4; 3] [4; 2]%Z (1 # 1000000000000) [7 # 2; 3 # 2] true (Some [3; 1]%Z)) = true.
+Proof. vm_compute. reflexivity. Qed.
